@@ -26,7 +26,8 @@ LEVEL_TEXT = ("Machine-checked proofs (Coq; reals axioms only, the run invariant
               "output is the per-synapse time shift of the undelayed currents (zero before the start / the last clear): "
               "general statement (any delay: on grid / between / beyond), shift on the grid, relational form per synapse, per "
               "connection for a common delay, and as a sum of undelayed connections with the weights split by delay "
-              "(LinearDense); zero delays = the connection without delay parameter; delays between grid points read the class's "
+              "(all four classes); reachable-from-constructor forms without invariant hypothesis; delays re-assigned between "
+              "steps (delay learning): each step uses the tensor in force at that step on the whole history; zero delays = the connection without delay parameter; delays between grid points read the class's "
               "interpolation (exact continuous-time response for the exponential classes); syncurrent / synspike show the same "
               "shifted values that forward contracts; Conv2D additionally as a cross-correlation of the input image with every "
               "kernel element's contribution taken k[f,c,i,j] steps in the past.  The model is run (vm_compute, binary64) "
